@@ -3,6 +3,7 @@
 package main
 
 import (
+	"errors"
 	"fmt"
 	"sync"
 	"time"
@@ -93,4 +94,103 @@ func c03ReadOnlyAndDeleteRace(r *vfkit.R, e *vfEnv) {
 		w.closeAll()
 		e.vfQuiesce()
 	}
+	// (c) p2p: suspending either participant makes the loaded topic read-only for both, restoring re-opens it;
+	// (d) a grant of W whose store write fails must not let the user publish.
+	for round := 0; round < r.Pick(2, 8); round++ {
+		w := vfNewWorld(e, r, r.Rand(int64(300+round)))
+		ua, ub := w.user("peerA", auth.LevelAuth), w.user("peerB", auth.LevelAuth)
+		root := w.user("root", auth.LevelRoot)
+		ca, cb, cr := w.conn(ua, false), w.conn(ub, false), w.conn(root, false)
+		ca.sub(ub.uid.UserId(), nil)
+		cb.sub(ua.uid.UserId(), nil)
+		e.vfQuiesce()
+		sc := &pubScn{w: w, r: r, focus: "C03", kind: "p2p", canon: ua.uid.P2PName(ub.uid)}
+		pa := &pubActor{u: ua, role: "peerA", cs: []*vfClient{ca}}
+		pb := &pubActor{u: ub, role: "peerB", cs: []*vfClient{cb}}
+		sc.actors = []*pubActor{pa, pb}
+		sc.pubStep(pa, ca, 0)
+		for _, victim := range []*vfUser{ua, ub} {
+			other, oc := pb, cb
+			if victim == ub {
+				other, oc = pa, ca
+			}
+			fs := cr.req("acc", map[string]any{"user": victim.uid.UserId(), "status": "susp"})
+			e.vfQuiesce()
+			sc.log("root suspends %s -> %s", victim.name, codeStr(fs))
+			if fs == nil || fs.code() >= 300 {
+				r.Inconclusive("c03 p2p states: suspend failed " + frameStr(fs))
+				break
+			}
+			r.Hit("readonly_p2p_topic_state")
+			r.Eval("p2p-suspend/" + victim.name)
+			// the other participant is still attached: its publish must be refused without effect
+			sc.pubStep(other, oc, 10)
+			fo := cr.req("acc", map[string]any{"user": victim.uid.UserId(), "status": "ok"})
+			e.vfQuiesce()
+			sc.log("root restores %s -> %s", victim.name, codeStr(fo))
+			// the suspended user's sessions were dropped: reconnect and re-attach
+			if victim == ua {
+				ca = w.conn(ua, false)
+				pa.cs = []*vfClient{ca}
+				ca.sub(ub.uid.UserId(), nil)
+			} else {
+				cb = w.conn(ub, false)
+				pb.cs = []*vfClient{cb}
+				cb.sub(ua.uid.UserId(), nil)
+			}
+			e.vfQuiesce()
+			sc.pubStep(pa, pa.cs[0], 11)
+			sc.pubStep(pb, pb.cs[0], 12)
+		}
+		w.closeAll()
+		e.vfQuiesce()
+
+		// (d)
+		w2 := vfNewWorld(e, r, r.Rand(int64(400+round)))
+		owner, member := w2.user("owner", auth.LevelAuth), w2.user("member", auth.LevelAuth)
+		co, cm := w2.conn(owner, false), w2.conn(member, false)
+		name, f := co.newGroup(false, map[string]any{"public": "x"})
+		if f == nil || f.code() != 200 {
+			r.Inconclusive("c03 failed grant: create failed")
+			continue
+		}
+		cm.sub(name, nil)
+		co.set(name, map[string]any{"sub": map[string]any{"user": member.uid.UserId(), "mode": "JRPS"}})
+		e.vfQuiesce()
+		sc2 := &pubScn{w: w2, r: r, focus: "C03", kind: "grp", canon: name}
+		sc2.actors = []*pubActor{{u: owner, role: "owner", cs: []*vfClient{co}}, {u: member, role: "member", cs: []*vfClient{cm}}}
+		sc2.owner = sc2.actors[0]
+		sc2.pubStep(sc2.actors[1], cm, 0) // no W: refused
+		vfRec.setFault(func(c *vfmem.Call) error {
+			if c.Op == "SubsUpdate" && c.Topic == name {
+				return errC03Injected
+			}
+			return nil
+		})
+		fg := co.set(name, map[string]any{"sub": map[string]any{"user": member.uid.UserId(), "mode": "JRWPS"}})
+		vfRec.setFault(nil)
+		e.vfQuiesce()
+		sc2.log("owner grants W to member while the store fails -> %s", codeStr(fg))
+		r.Hit("failed_grant_then_publish")
+		r.Eval("failed-grant")
+		sc2.pubStep(sc2.actors[1], cm, 1) // the grant is not stored: still refused
+		// and the other direction: a failed revocation keeps W
+		co.set(name, map[string]any{"sub": map[string]any{"user": member.uid.UserId(), "mode": "JRWPS"}})
+		e.vfQuiesce()
+		vfRec.setFault(func(c *vfmem.Call) error {
+			if c.Op == "SubsUpdate" && c.Topic == name {
+				return errC03Injected
+			}
+			return nil
+		})
+		fr := co.set(name, map[string]any{"sub": map[string]any{"user": member.uid.UserId(), "mode": "JRPS"}})
+		vfRec.setFault(nil)
+		e.vfQuiesce()
+		sc2.log("owner revokes W from member while the store fails -> %s", codeStr(fr))
+		sc2.pubStep(sc2.actors[1], cm, 2) // still entitled: must be accepted
+		w2.closeAll()
+		e.vfQuiesce()
+	}
 }
+
+var errC03Injected = errors.New("vf: injected store failure")
